@@ -102,26 +102,29 @@ Section Find.
 
   Record fstate := FS { f_vals : list nat; f_nodes : list nat; f_inits : list nat }.
 
-  (* the `while value_stack:` loop; head of the list = top of the stack *)
+  (* one iteration of the `while value_stack:` loop after `value = value_stack.pop()`;
+     head of the list = top of the stack *)
+  Definition find_step (v : nat) (st : list nat) (s : fstate) : list nat * fstate :=
+    if mem v (f_vals s) then (st, s)
+    else
+      let ini := if isinit v then v :: f_inits s else f_inits s in
+      let vv := v :: f_vals s in
+      match prod v with
+      | Some n =>
+          if mem n (f_nodes s) then (st, FS vv (f_nodes s) ini)
+          else
+            let pushed := filter (fun u => negb (mem u vv)) (somes (nins n) ++ ncaps n) in
+            (rev pushed ++ st, FS vv (n :: f_nodes s) ini)
+      | None => (st, FS vv (f_nodes s) ini)
+      end.
+
   Fixpoint find_loop (fuel : nat) (st : list nat) (s : fstate) : option fstate :=
     match fuel with
     | 0 => None
     | S f =>
         match st with
         | [] => Some s
-        | v :: st' =>
-            if mem v (f_vals s) then find_loop f st' s
-            else
-              let ini := if isinit v then v :: f_inits s else f_inits s in
-              let vv := v :: f_vals s in
-              match prod v with
-              | Some n =>
-                  if mem n (f_nodes s) then find_loop f st' (FS vv (f_nodes s) ini)
-                  else
-                    let pushed := filter (fun u => negb (mem u vv)) (somes (nins n) ++ ncaps n) in
-                    find_loop f (rev pushed ++ st') (FS vv (n :: f_nodes s) ini)
-              | None => find_loop f st' (FS vv (f_nodes s) ini)
-              end
+        | v :: st' => find_loop f (fst (find_step v st' s)) (snd (find_step v st' s))
         end
     end.
 
@@ -208,13 +211,14 @@ Fixpoint assoc (k : nat) (m : list (nat * nat)) : option nat :=
   | (k', v) :: r => if Nat.eqb k k' then Some v else assoc k r
   end.
 
-(* convenience.create_value_mapping(graph, include_subgraphs=False): first value with a name wins *)
+(* convenience.create_value_mapping(graph, include_subgraphs=False): first value with a name wins.
+   For a Function the mapping is built from function.graph (a Graph), so its initializers are included. *)
 Definition add_name (name : nat -> nat) (m : list (nat * nat)) (v : nat) : list (nat * nat) :=
   if Nat.eqb (name v) 0 then m
   else match assoc (name v) m with Some _ => m | None => m ++ [(name v, v)] end.
 Definition value_mapping (name : nat -> nat) (s : source) : list (nat * nat) :=
   fold_left (add_name name)
-            ((if is_function (s_kind s) then [] else s_inits s) ++ s_inputs s
+            (s_inits s ++ s_inputs s
              ++ flat_map (fun n => somes (n_ins n) ++ n_outs n) (s_nodes s)) [].
 
 Fixpoint resolve (owner : nat -> option nat) (s : source) (m : list (nat * nat)) (rs : list ref)
@@ -239,15 +243,27 @@ Fixpoint lookup_node (univ : list node) (i : nat) : option node :=
 
 Record extracted := EX { e_nodes : list nat; e_inits : list nat; e_inputs : list nat; e_outputs : list nat }.
 
+Definition h_owner (h : heap) (v : nat) := v_owner (hget h v).
+Definition h_prod (h : heap) (v : nat) := v_prod (hget h v).
+Definition h_init (h : heap) (v : nat) := v_init (hget h v).
+Definition h_name (h : heap) (v : nat) := v_name (hget h v).
+(* node.inputs / the captured values of node.attributes, through a node id *)
+Definition u_nins (univ : list node) (i : nat) : list (option nat) :=
+  match lookup_node univ i with Some n => n_ins n | None => [] end.
+Definition u_ncaps (h : heap) (univ : list node) (parent i : nat) : list nat :=
+  match lookup_node univ i with
+  | Some n => node_caps (h_owner h) (fun l => l) parent n
+  | None => []
+  end.
+(* the GraphView handed to the cloner *)
+Definition view_of (s : source) (ivals inis ns ovals : list nat) : graph :=
+  Graph 0 ivals inis (filter (fun n => mem (n_id n) ns) (s_nodes s)) ovals.
+
 (* univ: every node a producer pointer may lead to (all nodes of the underlying graph, any depth) *)
 Definition extract (h : heap) (univ : list node) (s : source) (inputs outputs : list ref) : res extracted :=
-  let owner v := v_owner (hget h v) in
-  let prod v := v_prod (hget h v) in
-  let isinit v := v_init (hget h v) in
-  let name v := v_name (hget h v) in
-  let m := value_mapping name s in
+  let m := value_mapping (h_name h) s in
   (* the validation loop runs over chain(inputs, outputs) *)
-  match resolve owner s m (inputs ++ outputs) with
+  match resolve (h_owner h) s m (inputs ++ outputs) with
   | Raise e => Raise e
   | Ok all =>
       let ivals := firstn (length inputs) all in
@@ -255,20 +271,15 @@ Definition extract (h : heap) (univ : list node) (s : source) (inputs outputs : 
       match ovals with
       | [] => Raise ValueError
       | o :: _ =>
-          match owner o with
+          match h_owner h o with
           | None => Raise AssertionError
           | Some parent =>
-              let nd i := lookup_node univ i in
-              let nins i := match nd i with Some n => n_ins n | None => [] end in
-              let ncaps i := match nd i with
-                             | Some n => node_caps owner (fun l => l) parent n
-                             | None => [] end in
-              match find_bounded prod isinit nins ncaps (is_function (s_kind s))
+              match find_bounded (h_prod h) (h_init h) (u_nins univ) (u_ncaps h univ parent)
+                                 (is_function (s_kind s))
                                  (map n_id (s_nodes s)) (map n_id univ) ivals ovals with
               | Raise e => Raise e
               | Ok (ns, inis) =>
-                  let view := Graph 0 ivals inis (filter (fun n => mem (n_id n) ns) (s_nodes s)) ovals in
-                  match clone_graph view [] with
+                  match clone_graph (view_of s ivals inis ns ovals) [] with
                   | Raise e => Raise e
                   | Ok _ => Ok (EX ns inis ivals ovals)
                   end
